@@ -133,7 +133,7 @@ def parse_out(line):
         kv = dict(x.split("=", 1) for x in part.split(" ")[1:])
         f, l = kv["pos"].split(":")
         out.append(dict(id=int(kv["id"]), file=f, line=int(l), valid=kv["valid"] == "true", n=int(kv["n"]),
-                        places=[p for p in kv["places"].split("|") if p]))
+                        places=[p for p in kv["places"].split("|") if p], flow=kv.get("flow", "-")))
     return out
 
 
@@ -180,6 +180,8 @@ def oracle_locations(case, diags):
         c = byid[d["id"]]
         if suppressed(case, c):
             return "conflict #%d lies on a suppressed line (f%d:%d) but is reported" % (c["id"], c["pos"][0], c["pos"][1])
+        if d.get("flow", "-") != "-" and d["flow"].split(":")[:2] != [d["file"], str(d["line"])]:
+            return "diagnostic reported at f%s:%d but its flow ends at f%s" % (d["file"], d["line"], d["flow"])
         if (d["file"], d["line"]) != (str(c["pos"][0]), c["pos"][1]):
             return "conflict #%d reported at f%s:%d instead of f%d:%d" % (c["id"], d["file"], d["line"], c["pos"][0], c["pos"][1])
         if d["n"] != len(d["places"]):
